@@ -138,7 +138,10 @@ def model_header(gen, basename: str) -> str:
         '#include <iostream>', '#include <map>', '#include <functional>', '#include <string>',
         '#include <dzn/locator.hh>', '#include <dzn/runtime.hh>', '#include "vmon.hh"', '',
         '#ifndef VX_TYPES', '#define VX_TYPES', 'namespace vx {']
-    out += [f'struct T{k} {{ long long id = 0; }};' for k in range(64)]
+    # copying a value is a point where a thread may be preempted (C11's schedules use it)
+    out += [f'struct T{k} {{ long long id = 0; T{k}() = default; '
+            f'T{k}(const T{k}& o) : id(o.id) {{ vmon::yield_point("argument-copied"); }} '
+            f'T{k}& operator=(const T{k}&) = default; }};' for k in range(64)]
     out += ['}', '#endif', '']
 
     def emit_enum(e: M.Enum, indent: str = '') -> List[str]:
@@ -363,6 +366,8 @@ def harness(gen, info: Dict[str, Any], enc: Dict[str, Any], mapping: Dict[str, s
                 # must never be the one that is called
                 o.append('    static std::map<std::string, long long> gens; '
                          'const long long gen = ++gens[client];')
+                o.append(f'    {{ vmon::J j; j.s("port","{pname}").s("event","{ev.name}")'
+                         '.s("client", client).n("gen", gen); vmon::log("bound", j); }')
                 o.append(f'    port.{ev.direction}.{ev.name} = [client, gen]({params}) -> '
                          f'{cx.reply_type(ev.reply)} {{')
                 o.append('      (void)gen;')
@@ -439,12 +444,14 @@ def harness(gen, info: Dict[str, Any], enc: Dict[str, Any], mapping: Dict[str, s
     o.append('  if (argc < 3) return 2;')
     o.append('  setup_port_ops();')
     if mc:
+        # the logger is user code: it may do something of its own while it is called (`nestop log
+        # <operation>` arms that, one-shot) - e.g. call back into the shell
         o.append('  g_log.Info = [](const std::string& m) { vmon::J j; j.s("level","info").s("msg", m); '
-                 'vmon::log("ilog", j); vmon::yield_point(m.c_str()); };')
+                 'vmon::log("ilog", j); vmon::yield_point(m.c_str()); vmon::run_nested("log"); };')
         o.append('  g_log.Warning = [](const std::string& m) { vmon::J j; j.s("level","warning").s("msg", m); '
-                 'vmon::log("ilog", j); };')
+                 'vmon::log("ilog", j); vmon::run_nested("log"); };')
         o.append('  g_log.Error = [](const std::string& m) { vmon::J j; j.s("level","error").s("msg", m); '
-                 'vmon::log("ilog", j); };')
+                 'vmon::log("ilog", j); vmon::run_nested("log"); };')
     o.append('  g_ops["construct"] = [](const Args& a) {')
     o.append('    // a[1] = locator shape: letters p (pump), r (runtime), x (extra service)')
     o.append('    const std::string shape = a.size() > 1 ? a[1] : "";')
@@ -488,6 +495,13 @@ def harness(gen, info: Dict[str, Any], enc: Dict[str, Any], mapping: Dict[str, s
     o.append('  g_ops["nest"] = [](const Args& a) { const std::string in = a[1], out = a[2]; '
              'vmon::set_nested(in, [in, out] { { vmon::J j; j.s("in", in).s("out", out); '
              'vmon::log("nested", j); } g_raise.at(out)("direct"); }); };')
+    o.append('  g_ops["nestop"] = [](const Args& a) { const std::string key = a[1]; '
+             'Args inner(a.begin() + 2, a.end()); '
+             'vmon::set_nested(key, [key, inner] { { vmon::J j; j.s("in", key).s("op", inner[0]); '
+             'vmon::log("nested_op", j); } auto it = g_ops.find(inner[0]); '
+             'if (it != g_ops.end()) { try { it->second(inner); } catch (const std::exception& e) '
+             '{ vmon::J j; j.s("op", inner[0]).s("what", e.what()); vmon::log("nested_op_threw", j); } } }); };')
+    o.append('  g_ops["disarm"] = [](const Args& a) { vmon::set_nested(a[1], nullptr); };')
     o.append('  g_ops["reply"] = [](const Args& a) { vmon::push_reply(a[1], std::stoll(a[2])); };')
     o.append('  g_ops["quiesce"] = [](const Args&) { quiesce(); };')
     # the log record must bracket the closed period: logged after closing, before opening
@@ -521,7 +535,7 @@ def harness(gen, info: Dict[str, Any], enc: Dict[str, Any], mapping: Dict[str, s
     o.append('    if (a.empty() || a[0][0] == \'#\') continue;')
     o.append('    auto it = g_ops.find(a[0]);')
     o.append('    if (it == g_ops.end()) { vmon::J j; j.s("line", line); vmon::log("unknown_op", j); rc = 3; break; }')
-    o.append('    if (!g_shell && a[0] != "construct" && a[0] != "reply" && a[0] != "nest" && a[0] != "gate" && a[0] != "quiesce") '
+    o.append('    if (!g_shell && a[0] != "construct" && a[0] != "reply" && a[0] != "nest" && a[0] != "nestop" && a[0] != "disarm" && a[0] != "gate" && a[0] != "quiesce") '
              '{ vmon::J j; j.s("line", line); vmon::log("skipped_no_shell", j); continue; }')
     o.append('    try { it->second(a); }')
     o.append('    catch (const std::exception& e) { vmon::J j; j.s("line", line).s("what", e.what()); '
